@@ -193,7 +193,7 @@ bool finding_open(const char* id);
 
 // ---- helper: evaluate f in a forked child of the current process (pristine copy of the library's static state) ----------
 // returns false if the child crashed, exited or did not answer within timeout_s
-bool run_in_child(const std::function<std::vector<double>()>& f, std::vector<double>& result, double timeout_s = 20.0);
+bool run_in_child(const std::function<std::vector<double>()>& f, std::vector<double>& result, double timeout_s = 20.0, int* wait_status = nullptr);
 
 // ---- small numeric helpers -----------------------------------------------------------------------------------------
 constexpr double EPS = 2.220446049250313e-16;
